@@ -75,10 +75,10 @@ func (c *Ctx) resolveOwner(fn *ssa.Function) string {
 
 // resolveAllow: sites confirmed by reading, keyed "function/operand.(type)".
 var resolveAllow = map[string]string{
-	"engine.KeySort$1/elems[].(engine.Compound)":                     "every element was appended as the resolved Compound matched by the loop above (case Compound of env.Resolve(elem))",
-	"engine.collectionOf$1/w[].(engine.Variable)":                    "w holds the keys of the free-variable set, Variables by construction",
-	"engine.collectionOf$2/~[].(engine.Compound)":                    "the remaining elements of the same findall/3 result list (s re-sliced): fresh +/2 compounds",
-	"engine.collectionOf$2/s[].(engine.Compound)":                    "s is the list findall/3 built from W+T copies: each element is a fresh +/2 compound",
+	"engine.KeySort/elems[].(engine.Compound)":                       "every element was appended as the resolved Compound matched by the loop above (case Compound of env.Resolve(elem))",
+	"engine.collectionOf/w[].(engine.Variable)":                      "w holds the keys of the free-variable set, Variables by construction",
+	"engine.collectionOf/~[].(engine.Compound)":                      "the remaining elements of the same findall/3 result list (s re-sliced): fresh +/2 compounds",
+	"engine.collectionOf/s[].(engine.Compound)":                      "s is the list findall/3 built from W+T copies: each element is a fresh +/2 compound",
 	"engine.writeTermOptionVariableNames/Suffix().(engine.Variable)": "Suffix() after a completed Next() loop is the hare, resolved by Next",
 	"engine.writeTermOptionVariableNames/Suffix().(engine.Atom)":     "Suffix() after a completed Next() loop is the hare, resolved by Next",
 	"engine.NumberChars/Suffix().(engine.Variable)":                  "Suffix() after a completed Next() loop is the hare, resolved by Next",
@@ -415,8 +415,9 @@ func ruleResolveAll(prop string) func(c *Ctx, r *Report) {
 					r.ok(rule, fmt.Sprintf("%s[%d]", base, seenKey[base]), c.at(ta), desc, "operand is resolved", true)
 					return
 				}
-				if reason, ok := resolveAllow[base]; ok {
-					usedAllow[base] = true
+				allowKey := fmt.Sprintf("%s/%s.(%s)", fname(topFunc(fn)), stableName(ta.X), typeName(ta.AssertedType))
+				if reason, ok := resolveAllow[allowKey]; ok {
+					usedAllow[allowKey] = true
 					r.ok(rule, fmt.Sprintf("%s[%d]", base, seenKey[base]), c.at(ta), desc, "confirmed by reading: "+reason, false)
 					return
 				}
